@@ -110,15 +110,35 @@ func runC15(c *Ctx) {
 		return
 	}
 	// ---- R1
-	mc := stringCases(match, "FilterNode.Cmp")
-	vc := stringCases(validate, "FilterNode.Cmp")
+	// Match / Validate together with the package helpers they call: the leaf comparison may live in a
+	// helper (matchLeaf) — the function holding most operator cases is the one the path rules look at.
+	entryMatch := match
+	var mc, vc []strCase
+	var moAll, voAll []strCase
+	best := 0
+	for _, f := range w.Deep(entryMatch, 2).Funcs {
+		cs := stringCases(f, "FilterNode.Cmp")
+		mc = append(mc, cs...)
+		moAll = append(moAll, stringCases(f, "FilterNode.Op")...)
+		if len(cs) > best {
+			best = len(cs)
+			match = f
+		}
+	}
+	for _, f := range w.Deep(validate, 2).Funcs {
+		vc = append(vc, stringCases(f, "FilterNode.Cmp")...)
+		voAll = append(voAll, stringCases(f, "FilterNode.Op")...)
+	}
+	// the path rules below use only the cases of the leaf function
+	mcLeaf := stringCases(match, "FilterNode.Cmp")
 	ms, vs := setOf(mc), setOf(vc)
+	mc = mcLeaf
 	delete(vs, "") // `f.Cmp == ""` is Validate's "must be set" test
 	d1, d2 := setDiff(ms, vs), setDiff(vs, ms)
 	c.CheckAt("C15.R1", "filter.Match/filter.Validate: comparison operator sets", w.Pos(match.Pos()), len(d1) == 0 && len(d2) == 0 && len(ms) >= 2,
 		fmt.Sprintf("Match handles %v; Validate accepts %v; only-in-Match=%v only-in-Validate=%v", keys(ms), keys(vs), d1, d2))
-	mo := setOf(stringCases(match, "FilterNode.Op"))
-	vo := setOf(stringCases(validate, "FilterNode.Op"))
+	mo := setOf(moAll)
+	vo := setOf(voAll)
 	d1, d2 = setDiff(mo, vo), setDiff(vo, mo)
 	c.CheckAt("C15.R1", "filter.Match/filter.Validate: node operator sets", w.Pos(validate.Pos()), len(d1) == 0 && len(d2) == 0 && len(mo) >= 2,
 		fmt.Sprintf("Match handles %v; Validate accepts %v; only-in-Match=%v only-in-Validate=%v", keys(mo), keys(vo), d1, d2))
@@ -209,7 +229,7 @@ func runC15(c *Ctx) {
 				visit(a, d-1)
 			}
 		}
-		visit(match, 4)
+		visit(entryMatch, 4)
 		n := 0
 		for f := range reach {
 			EachInstr(f, func(in ssa.Instruction) {
@@ -324,7 +344,7 @@ func runC15(c *Ctx) {
 	checkNilGuard(validate, "C15.R3")
 	c.Floor("C15.R3", 1)
 	// Match recursion only descends into elements of f.Nodes (validated children)
-	for _, ci := range CallsIn(match, false, w.calleeFn(match)) {
+	for _, ci := range w.Deep(entryMatch, 2).Calls(w.calleeFn(entryMatch)) {
 		arg := D(ci.Common().Args[0])
 		ok := strings.Contains(arg, "FilterNode.Nodes")
 		c.Check("C15.R3", ci, "recursive Match argument", ok, "recursive Match must descend into f.Nodes elements (validated children); got "+arg)
